@@ -85,6 +85,11 @@ def base_cases():
             {"parallel": True, "tasks": [T("lenient", 1, warmup_iterations=0, iterations=2, ignore_response_error_level="non-fatal"),
                                          T("strict", 2, warmup_iterations=0, iterations=2)]},
             {"tasks": [T("after", 1, warmup_iterations=0, iterations=1)]}]),
+        # a really over-committed parallel element (no other element is wider): every worker runs its tasks in two rows between the same pair of
+        # join points, so a failure in the FIRST row is found at a wake-up after which the worker would go on to the second row
+        dict(common, seed=107, cores=2, hosts=["localhost"], elements=[
+            {"parallel": True, "clients_cap": 2, "tasks": [T("first", 2, warmup_iterations=0, iterations=2), T("second", 2, base=0.3, warmup_iterations=0, iterations=2)]},
+            {"tasks": [T("after", 2, warmup_iterations=0, iterations=1)]}]),
         # the schedule and delay profile under which a BenchmarkComplete overtook the bounced failure notification of race control's
         # TaskFinished handler (found by the thorough tier, repaired in /repo d77538d); only the race-control store faults are enumerated here
         json.load(open(os.path.join(os.path.dirname(__file__), "c09_base_overtake.json"))),
